@@ -183,7 +183,7 @@ func verifRunNative(sc verifScenario) (code int, stdout string, want string) {
 	case 3:
 		fileText = ""
 	}
-	stdinText := `{"a":{"b":"from standard input"}}`
+	stdinText := `{"a":{"b":["from standard input: 50% %d %s %%", {"%v": 1}]}}`
 	if sc.stdinKind == 1 {
 		stdinText = "{"
 	}
